@@ -73,6 +73,12 @@ def run(res, tier, seed, shard, nshards):
         histories.append(tuple(rng.choice(kinds_ab) for _ in range(n)))
     for _ in range(600 if tier == "quick" else 6000):
         histories.append(tuple(rng.choice(kinds_pre) for _ in range(rng.randrange(1, 4))))
+    # large cookie data: long values, many cookies in one response (the jar has no size limit in the statement)
+    big_sets = [(("a", "V" * 5000),), (("a", "v" * 2500), ("b", "w" * 2500)), tuple((f"n{i:03d}", "x" * 6) for i in range(400)), (("a", "u" * 4090),), (("a", "t" * 4100),)]
+    for bs in big_sets:
+        for d in ("x.t", ".x.t", "X.T"):
+            histories.append(((d, bs),))
+            histories.append(((d, (("a", "old"),)), (d, bs)))
 
     def scen():
         for i, hst in enumerate(histories):
@@ -128,8 +134,14 @@ def history_case(res, W, rng, hst):
     for probe in PROBES:
         caller = rng.choice([None, "me=1", "a=1", "=1", "b=2", "a=1; b=2"])
         n0 = len(requests)
+        # the Host header override names a virtual host; cookies follow the host actually connected to
+        override = rng.choice([None, None, None, "x.t", "y.t", "front.test:8443", "S.X.T"])
+        kw = {"cookie": caller} if caller else {}
+        if override:
+            kw["host"] = override
+            res.count("probes_with_host_override")
         try:
-            w = W.create_connection(f"ws://{probe}/", timeout=2, **({"cookie": caller} if caller else {}))
+            w = W.create_connection(f"ws://{probe}/", timeout=2, **kw)
             w.shutdown()
         except Exception as e:  # noqa
             res.violation("connect-failed", f"probe {probe}: {type(e).__name__}: {e}", {"history": hst, "probe": probe}, exc_type=type(e).__name__)
@@ -141,7 +153,7 @@ def history_case(res, W, rng, hst):
         exp_items = [f"{n}={v}" for n, v in pairs] + (caller.split("; ") if caller else [])
         res.case((hst, probe, caller), nontrivial=stored)
         res.count("cookie_headers_checked")
-        case = {"history": hst, "probe": probe, "caller_cookie": caller}
+        case = {"history": hst, "probe": probe, "caller_cookie": caller, "host_override": override}
         if pairs:
             res.count("nonempty_expected")
         if not exp_items:
